@@ -1,13 +1,13 @@
 """C19 — the call-path store keeps exactly the maximal paths."""
 import json
 import os
-import time
 
-import common as C
 import patterna as A
+from tree import load_history
 
 PID = "C19"
 HERE = os.path.dirname(os.path.abspath(__file__))
+DRIVER = os.path.join(HERE, "drive_c19.py")
 
 
 def sig(clause, hist):
@@ -15,83 +15,31 @@ def sig(clause, hist):
     return "%s:%s" % (clause, ops)
 
 
-def drive(out_dir, tier, seed, v):
-    p = C.run_py(os.path.join(HERE, "drive_c19.py"), [out_dir, tier, seed], timeout=7200)
-    if p.returncode != 0:
-        v.machinery_failure("driver failed: " + p.stderr[-1500:])
-        return None
-    return json.loads(p.stdout.strip().splitlines()[-1])
+def samples(files):
+    out = []
+    with open(files[0][0]) as f:
+        n = len(json.load(f)["nodes"])
+    for k in (n, min(4, n)):
+        out.append(" ; ".join("%s%s->%s stored=%s" % (h["op"], json.dumps(h["path"], separators=(",", ":")), h["res"],
+                                                      json.dumps(h["paths"], separators=(",", ":")))
+                              for h in load_history(files[0][0], k)))
+    return out
 
 
 def run(tier, seed):
-    t0 = time.time()
-    v = C.Verdict(PID)
-    out_dir = C.scratch("c19")
-    mc = A.model_check(
-        [("PathStore", "MC_PathStore.cfg"), ("PathTrieImpl", "MC_PathTrieImpl.cfg")] +
-        ([("PathStore", "MC_PathStore_big.cfg"), ("PathTrieImpl", "MC_PathTrieImpl_big.cfg")] if tier == "thorough" else []),
-        v, neg_controls=[("PathTrieImpl", "MC_PathTrieImpl_pinned.cfg")])
-    summary = drive(out_dir, tier, seed, v)
-    tot = dict(states=0, transitions=0, nodes=0, bad=[], drift=[])
-    samples = []
-    if summary:
-        files = [(os.path.abspath(p), n) for p, n in summary["files"]]
-        tot = A.validate_forests(files, "PathStoreTrace", "PathStoreTrace.cfg", v, sig)
-        A.drift_note(tot, v, "PathTrieImpl")
-        with open(files[0][0]) as f:
-            doc = json.load(f)
-        # two sample histories: the deepest chain and the first exhaustive leaf
-        from tree import load_history
-        for k in (len(doc["nodes"]), min(4, len(doc["nodes"]))):
-            samples.append(" ; ".join("%s%s->%s stored=%s" % (h["op"], json.dumps(h["path"], separators=(",", ":")), h["res"],
-                                                                  json.dumps(h["paths"], separators=(",", ":")))
-                                          for h in load_history(files[0][0], k)))
-    rc = v.finish()
-    cov = {
-        "states": tot["states"] + sum(m["distinct"] for m in mc),
-        "transitions": tot["transitions"] + sum(m["generated"] for m in mc),
-        "traces_validated_against_impl": (summary or {}).get("leaves", 0),
-        "samples": samples or ["none"],
-        "spec_level_runs": mc,
-        "trace_tree_nodes": tot["nodes"],
-        "trace_states": tot["states"],
-        "history_families": (summary or {}).get("families"),
-        "max_history_length": (summary or {}).get("maxdepth"),
-        "violating_nodes": len(tot["bad"]),
-        "model_drift_nodes": len(tot["drift"]),
-        "known_findings_hit": {k: len(x) for k, x in v.hits.items()},
-        "repo": C.repo_head(),
-        "exhaustive": False,
-        "rule": "every node of the history tree is one call on the real PathManager judged by PathStore; "
-                "a trace = one root-to-leaf history",
-    }
-    C.write_evidence(PID, tier, seed, "model_checking", cov, time.time() - t0, violations=len(v.unlisted),
-                     assumptions=["CallSite equality/hash as implemented", "paths of length >= 1 (the analysis never stores the empty path)",
-                                  "TLC, CommunityModules Json"])
-    print("C19: %d tree nodes, %d TLC states, %d violating, %d drift, %.1fs" % (
-        tot["nodes"], cov["states"], len(tot["bad"]), len(tot["drift"]), time.time() - t0))
-    return rc
+    mc = [("PathStore", "MC_PathStore.cfg"), ("PathTrieImpl", "MC_PathTrieImpl.cfg")]
+    if tier == "thorough":
+        mc += [("PathStore", "MC_PathStore_big.cfg"), ("PathTrieImpl", "MC_PathTrieImpl_big.cfg")]
+    return A.run_component(
+        PID, tier, seed, DRIVER, "PathStoreTrace", "PathStoreTrace.cfg", mc,
+        [("PathTrieImpl", "MC_PathTrieImpl_pinned.cfg")], sig, samples,
+        assumptions=["CallSite equality/hash as implemented",
+                     "paths of length >= 1 (the analysis never stores the empty path)", "TLC, CommunityModules Json"],
+        impl_name="PathTrieImpl",
+        rule="every node of the history tree is one call on the real PathManager judged by PathStore; "
+             "a trace = one root-to-leaf history")
 
 
 def replay(path):
-    with open(path) as f:
-        doc = json.load(f)
-    hist = [{"op": h["op"], "path": h["path"]} for h in doc["replay"]["history"]]
-    d = C.scratch("c19_replay")
-    hp = os.path.join(d, "hist.json")
-    with open(hp, "w") as f:
-        json.dump(hist, f)
-    p = C.run_py(os.path.join(HERE, "drive_c19.py"), ["--replay", hp])
-    evs = json.loads(p.stdout.strip().splitlines()[-1])
-    nodes = []
-    for i, ev in enumerate(evs):
-        ev["kids"] = [i + 2] if i + 1 < len(evs) else []
-        nodes.append(ev)
-    fp = os.path.join(d, "chain.json")
-    with open(fp, "w") as f:
-        json.dump({"roots": [1], "nodes": nodes}, f)
-    v = C.Verdict(PID)
-    A.validate_forests([(fp, len(nodes))], "PathStoreTrace", "PathStoreTrace.cfg", v, sig)
-    for ev in evs:
-        print(json.dumps({k: ev[k] for k in ("op", "path", "res", "paths")}))
-    return v.finish()
+    return A.replay_component(PID, path, DRIVER, "PathStoreTrace", "PathStoreTrace.cfg", sig, ("op", "path"),
+                              show=("res", "paths"))
